@@ -353,6 +353,16 @@ func (u *Unit) evalExternal(st *State, call *ast.CallExpr) ([]Value, bool) {
 		u.defs = append(u.defs, Eq(k, ri))
 		kv := Value{K: KInt, T: types.Typ[types.Int64], Term: k}
 		return []Value{{K: KNum, T: x.T, Term: mk("to_real", SReal, k), Spec: x.Spec, Inner: &kv}}, true
+	case "fmt.Sprintf", "fmt.Sprint", "fmt.Sprintln", "fmt.Errorf", "errors.New", "strconv.Itoa":
+		// string building: allocates, result opaque
+		for _, a := range call.Args {
+			v := u.eval(st, a)
+			if v.K != KString && v.K != KIface && v.K != KBuf && v.K != KPool {
+				u.bumpAllocs(st, 1) // boxed into an interface
+			}
+		}
+		u.bumpAllocs(st, 1)
+		return []Value{{K: KString, T: types.Typ[types.String], Str: "formatted"}}, true
 	case "unsafe.Sizeof":
 		t := u.conc(u.staticType(call.Args[0]))
 		sz := u.prog.Sizes.Sizeof(t.Underlying())
